@@ -1,4 +1,5 @@
 """Rules about the draw path shared by C01/C03/C04/C05/C06/C19."""
+import os
 import re
 
 from . import common as K
@@ -1194,6 +1195,165 @@ def rule_every_line_painted(ctx, crate, rule="R-EVERY-LINE-PAINTED"):
         ctx.check(not again, rule, "no-skipped-line#%d" % k, pb.name, c.loc(),
                   "every iteration of the paint loop that continues to the next line has written its line",
                   "the paint loop can go on to the next line without writing the current one (and without its newline / last-line filler)", cfg)
+
+
+def rule_painted_line_terminated(ctx, crate, rule="R-PAINTED-LINE-TERMINATED"):
+    """Every line of printed text the paint routine writes is *terminated* before the frame is flushed (a line that the same
+    iteration identifies as a bar line is exempt: leaving the cursor behind the last painted bar of a truncated frame is what
+    the library does and the next erase copes with it): after the line's own `write_str`
+    comes either the newline that precedes the next painted line (`write_line`) or the end-of-frame filler that parks the
+    cursor at the right edge (a `write_str` of a `repeat`ed string). Otherwise the cursor is left in the middle of that line
+    and whatever is written next (the next frame, the user's own output) is glued to it — for a text line that means a
+    println'ed line is corrupted. The walk from each paint call to `flush()` is path-sensitive in locally assigned
+    Option/bool values (`let mut last = None; .. last = Some(..); .. if let Some(l) = last {filler}`)."""
+    cfg = crate.config
+    info = emitter_commit_info(ctx, crate, rule)
+    if not info:
+        return
+    pb, p, commits, acc = info
+    paints = line_paint_calls(pb)
+    flushes = tl_calls(pb, "flush")
+    ctx.floor(rule, len(paints), 1, cfg, "per-line paint calls")
+    ctx.floor(rule, len(flushes), 1, cfg, "flush calls in the paint routine")
+    if not paints or not flushes:
+        return
+    paint_bbs = {c.bb for c in paints}
+    term_bbs = {c.bb for c in tl_calls(pb, "write_line")}
+    for c in tl_calls(pb, "write_str"):
+        if c.bb in paint_bbs:
+            continue
+        if pb.slice_args(c, [1]).has_call(r"(alloc|std|core)::str::<impl str>::repeat"):
+            term_bbs.add(c.bb)
+    flush_bbs = {c.bb for c in flushes}
+    err = set()
+    for k in pb.calls(K.TRY_BRANCH):
+        te = K.try_edges(pb, k)
+        if te:
+            err.add((te[0], te[2]))
+
+    def variant_assigned(st):
+        """(local, variant name | bool) for `l = Option::Some{..}` / `l = None` / `l = const bool`"""
+        if st.get("k") != "assign" or st["lhs"]["p"]:
+            return None
+        rv = st["rv"]
+        if rv["k"] == "agg" and rv.get("ak") == "adt" and rv.get("variant") in ("Some", "None"):
+            return st["lhs"]["l"], rv["variant"]
+        if rv["k"] == "use" and rv["op"].get("k") == "const" and isinstance(rv["op"].get("v"), bool):
+            return st["lhs"]["l"], rv["op"]["v"]
+        return None
+
+    def derived(st, env):
+        """`l = !x` / `l = x` for a known bool x"""
+        if st.get("k") != "assign" or st["lhs"]["p"]:
+            return None
+        rv = st["rv"]
+        if rv["k"] == "un" and rv.get("op") == "Not":
+            x = operand_local(rv.get("a"))
+            if x in env and isinstance(env[x], bool):
+                return st["lhs"]["l"], not env[x]
+        if rv["k"] == "use" and rv["op"].get("k") in ("copy", "move") and not rv["op"]["place"]["p"]:
+            x = operand_local(rv["op"])
+            if x in env:
+                return st["lhs"]["l"], env[x]
+        return None
+    # LineType tests: passing the Bar-only edge of one *within the iteration that painted the line* says the painted line is a bar
+    bar_edges = set()
+    for sb, t, pl, d in K.discr_switches(pb):
+        if K.head_of_type(pl.get("ty", "")) != LINETYPE:
+            continue
+        for tgt, vs in K.edge_variants(crate, t, LINETYPE).items():
+            if vs == {"Bar"}:
+                bar_edges.add((sb, tgt))
+    next_bbs = {x.bb for x in pb.calls(r"std::iter::Iterator::next")}
+    # the loop's own exhaustion exit is fine when the filler is tied to the last line by `index + 1 == lines.len()` (the last
+    # iteration then wrote it): edges `next() == None` of a loop over lines.iter().enumerate() that contains such a filler
+    done_edges = set()
+    fillers = [c for c in tl_calls(pb, "write_str") if c.bb not in paint_bbs and pb.in_loop(c.bb) and pb.slice_args(c, [1]).has_call(r"(alloc|std|core)::str::<impl str>::repeat")]
+    for nx in pb.calls(r"std::iter::Iterator::next"):
+        if not pb.slice_args(nx, [0]).has_call(r"std::iter::Iterator::enumerate"):
+            continue
+        tied = False
+        for f in fillers:
+            for sb, t in pb.switches():
+                if not any(pb.edge_dominates((sb, x), f.bb) for x in pb.succ(sb)):
+                    continue
+                sl = pb.slice(t["op"], at=sb)
+                lens = [k for k in sl.calls if k.matches(r"std::vec::Vec::<T, A>::len", r"core::slice::<impl \[T\]>::len") and pb.slice_args(k, [0]).has_field("lines")]
+                if lens and any(k.bb == nx.bb for k in sl.calls) and ("binop", "Eq") in sl.atoms:
+                    tied = True
+        if not tied:
+            continue
+        for sb, t in pb.switches():
+            for st in pb.stmts(sb):
+                if st.get("k") == "assign" and st["rv"]["k"] == "discr" and st["rv"]["place"]["l"] == nx.dest["l"] and operand_local(t["op"]) == st["lhs"]["l"]:
+                    for v, tb in t["targets"]:
+                        if v == 0:
+                            done_edges.add((sb, tb))
+
+    def feasible_succ(bb, env):
+        t = pb.term(bb)
+        succs = [x for x in pb.succ(bb) if (bb, x) not in err]
+        if not t or t["k"] != "switch":
+            return succs
+        l = operand_local(t["op"])
+        if l is None or t["op"]["place"]["p"]:
+            return succs
+        val = None
+        if l in env and isinstance(env[l], bool):
+            val = int(env[l])
+        else:
+            for st in pb.stmts(bb):
+                if st.get("k") == "assign" and st["lhs"]["l"] == l and st["rv"]["k"] == "discr" and not st["rv"]["place"]["p"]:
+                    v = env.get(st["rv"]["place"]["l"])
+                    if v in ("Some", "None"):
+                        val = 1 if v == "Some" else 0
+        if val is None:
+            return succs
+        tgt = [tb for v, tb in t["targets"] if v == val] or [t["otherwise"]]
+        return [x for x in succs if x == tgt[0]]
+    for k, c in enumerate(paints):
+        # walk from the continuation of the paint call; the environment holds what was assigned since
+        seen = set()
+        start = pb.term(c.bb).get("t")
+        work = [(start, frozenset(), True)] if start is not None else []
+        leak = None
+        trail = {}
+        while work and leak is None:
+            bb, envf, same_iter = work.pop()
+            if (bb, envf, same_iter) in seen or len(seen) > 6000:
+                continue
+            seen.add((bb, envf, same_iter))
+            if bb in term_bbs or bb in paint_bbs:
+                continue        # terminated - or the next line is being painted (its own walk covers what follows it)
+            if bb in flush_bbs:
+                leak = bb
+                if os.environ.get("VERIF_DEBUG_TERMINATED"):
+                    print("LEAK at", bb, "env", sorted(dict(envf).items()), "same_iter", same_iter, "trail", trail.get((bb, envf, same_iter)))
+                break
+            if bb in next_bbs:
+                same_iter = False
+            env = dict(envf)
+            for st in pb.stmts(bb):
+                va = variant_assigned(st) or derived(st, env)
+                if va:
+                    env[va[0]] = va[1]
+                elif st.get("k") == "assign" and not st["lhs"]["p"] and st["lhs"]["l"] in env:
+                    del env[st["lhs"]["l"]]
+            tt = pb.term(bb)
+            if tt and tt["k"] == "call" and not tt["dest"]["p"] and tt["dest"]["l"] in env:
+                del env[tt["dest"]["l"]]
+            for x in feasible_succ(bb, env):
+                if same_iter and (bb, x) in bar_edges:
+                    continue        # the line just painted is a bar line: the obligation is about printed text
+                if (bb, x) in done_edges:
+                    continue        # all lines painted: the last iteration wrote the filler
+                work.append((x, frozenset(env.items()), same_iter))
+                if os.environ.get("VERIF_DEBUG_TERMINATED"):
+                    trail.setdefault((x, frozenset(env.items()), same_iter), (trail.get((bb, envf, same_iter)) or []) + [bb])
+        ctx.check(leak is None, rule, "terminated#%d" % k, pb.name, c.loc(),
+                  "after a line is written, flush() is reached only through the next line's newline or the end-of-frame filler",
+                  "a painted line can be followed by flush() with neither a newline nor the end-of-frame filler (the height test leaves the loop right after it): "
+                  "the cursor stays in the middle of that line and the next frame is appended to it (a println'ed line above an oversized bar reads \"log 1aaa\")", cfg)
 
 
 def rule_rows_finite(ctx, crate, rule="R-ROWS-FINITE"):
